@@ -350,6 +350,11 @@ func (s *Sim) Reinclude(tx, newHash string) {
 	old := s.TxEvents[tx]
 	moved := append([]Event{}, old...) // the node keeps the events of the orphaned block as well
 	seen := map[string]bool{}
+	for _, e := range old { // a transaction is in a block at most once: re-including it into the same block again changes nothing
+		if e.BlockHash == newHash {
+			seen[fmt.Sprint(e.Contract, e.Index, e.Fields)] = true
+		}
+	}
 	for _, e := range old {
 		k := fmt.Sprint(e.Contract, e.Index, e.Fields)
 		if e.BlockHash == newHash || seen[k] {
